@@ -177,6 +177,10 @@ type Run struct {
 	QFailing []string
 	QTotal   int
 	QRan     bool
+	// network machine race stand-in (C12)
+	NRFailing []string
+	NRTotal   int
+	NRRan     bool
 	// helpers stand-in (C20)
 	HeFailing []string
 	HeTotal   int
@@ -368,6 +372,14 @@ func verifyRun(opts *RunOpts) (*Run, error) {
 			run.StandinErrs = append(run.StandinErrs, [2]string{"queue", err.Error()})
 		} else {
 			run.QFailing, run.QTotal, run.QRan = f, total, true
+		}
+	}
+	if opts.Prop == "C12" {
+		f, total, err := runBoundedNetRace(opts)
+		if err != nil {
+			run.StandinErrs = append(run.StandinErrs, [2]string{"network-machine race", err.Error()})
+		} else {
+			run.NRFailing, run.NRTotal, run.NRRan = f, total, true
 		}
 	}
 	if opts.Prop == "C20" {
